@@ -377,14 +377,52 @@ def _dview(d):
     return d.dom, d.val, d.lens
 
 
+# Second registrations on tables of a FIXED number of rows (docs/PYVC_GUIDE.md "Second registrations on tables of a fixed size"):
+# every table of 0..FIXED_ROWS rows, contents symbolic.  Loops without a sidecar invariant unroll, the library models state their
+# facts cell by cell (quantifier-free), the SAME clauses are decided at that size and a violated one is answered with a counter-model.
+FIXED_ROWS = (0, 1, 2, 3, 4)
+FIXED_NOTE = ("second registration on tables of a fixed number of rows, contents symbolic: a rewritten body (new loops, vector operations) is decided at that "
+              "size, a violated clause is answered with a counter-model (a concrete table)")
+
+
+def fixed_name(m, extra=""):
+    return f"{m} rows, contents arbitrary" + (", " + extra if extra else "")
+
+
+def all_rows(n, body):
+    """forall 0 <= a < n: body(a) -- spelled out row by row when n is a Python int (the fixed-size registrations)"""
+    if isinstance(n, int):
+        return z3.And(*[body(z3.IntVal(q)) for q in range(n)]) if n else z3.BoolVal(True)
+    a = z3.Int(fresh_name("a"))
+    return z3.ForAll([a], z3.Implies(z3.And(0 <= a, a < n), body(a)))
+
+
+def some_row(n, body):
+    if isinstance(n, int):
+        return z3.Or(*[body(z3.IntVal(q)) for q in range(n)]) if n else z3.BoolVal(False)
+    a = z3.Int(fresh_name("a"))
+    return z3.Exists([a], z3.And(0 <= a, a < n, body(a)))
+
+
+def rows_of(arr):
+    """the number of rows as a Python int (fixed-size registration) or a z3 term"""
+    return arr.n if isinstance(arr.n, int) and not isinstance(arr.n, bool) else arr.nz()
+
+
 def register_checker(R):
-    def setup(exclude_root):
+    def setup(exclude_root, size=None):
         def f(S):
+            if size is not None:
+                # exactly `size` rows; ids / parent ids arbitrary (under the preconditions below); both columns frozen
+                ids, pids = S.arr("int", n=size, name="ids"), S.arr("int", n=size, name="pids")
+                ids.frozen = pids.frozen = True
+                return dict(topology=(ids, pids), exclude_root=exclude_root, __ghost__={"nch": None, "prow": None})
             n = S.int("n")
             S.assume(n.z >= 0)
             ids, pids = S.arr("int", n=n, name="ids"), S.arr("int", n=n, name="pids")
-            # ghost: nch(k, i) = number of rows j < i with pids[j] == k
-            nch = z3.Function("nch", z3.IntSort(), z3.IntSort(), z3.IntSort())
+            # ghost: nch(k, i) = number of rows j < i with pids[j] == k.  It IS the counting function of the library models
+            # (np.unique(return_counts) / np.bincount / Counter speak about the same symbol), defined by the recursion below
+            nch = ext_C18.occ_fn(pids.arr)
             k, i = z3.Ints("k_nch i_nch")
             S.assume(z3.ForAll([k], nch(k, 0) == 0))
             S.assume(z3.ForAll([k, i], z3.Implies(i >= 0, nch(k, i + 1) == nch(k, i) + z3.If(z3.Select(pids.arr, i) == k, 1, 0)), patterns=[nch(k, i + 1)]))
@@ -398,28 +436,35 @@ def register_checker(R):
         ids, pids = v["topology"]
         return ids, pids, ids.nz()
 
+    def children_of(E, pids, k):
+        """number of rows whose parent id is k: the ghost counter nch(k, n), or -- on a table of a fixed number of rows -- the sum written out"""
+        if isinstance(rows_of(pids), int):
+            return z3.Sum(*[z3.If(pids.get(j).z == k, 1, 0) for j in range(pids.n)]) if pids.n else z3.IntVal(0)
+        return E.spec_extra["nch"](k, pids.nz())
+
     def pre_distinct(E, v, o):
         ids, pids, n = T(v)
+        if isinstance(rows_of(ids), int):
+            return z3.And(*[ids.get(a).z != ids.get(b).z for b in range(ids.n) for a in range(b)]) if ids.n > 1 else z3.BoolVal(True)
         a, b = z3.Ints(fresh_name("a") + " " + fresh_name("b"))
         return z3.ForAll([a, b], z3.Implies(z3.And(0 <= a, a < b, b < n), ids.get(a).z != ids.get(b).z))
 
     def pre_marker(E, v, o):
         ids, pids, n = T(v)
-        a = z3.Int(fresh_name("a"))
-        return z3.ForAll([a], z3.Implies(z3.And(0 <= a, a < n), ids.get(a).z != -1))
+        return all_rows(rows_of(ids), lambda a: ids.get(a).z != -1)
 
     def pre_parents(E, v, o):
         ids, pids, n = T(v)
+        if isinstance(rows_of(ids), int):  # the Skolem function prow is not needed: the parent row is one of finitely many
+            return all_rows(ids.n, lambda a: z3.Or(pids.get(a).z == -1, some_row(ids.n, lambda b: ids.get(b).z == pids.get(a).z)))
         a = z3.Int(fresh_name("a"))
         b = E.spec_extra["prow"](a)
         return z3.ForAll([a], z3.Implies(z3.And(0 <= a, a < n, pids.get(a).z != -1), z3.And(0 <= b, b < n, ids.get(b).z == pids.get(a).z)))
 
     def post(E, v, o):
         ids, pids, n = T(v)
-        nch = E.spec_extra["nch"]
-        a = z3.Int(fresh_name("a"))
         ex = v["exclude_root"]
-        ok = z3.ForAll([a], z3.Implies(z3.And(0 <= a, a < n), z3.Or(z3.And(z3.BoolVal(bool(ex)), pids.get(a).z == -1), nch(ids.get(a).z, n) <= 2)))
+        ok = all_rows(rows_of(ids), lambda a: z3.Or(z3.And(z3.BoolVal(bool(ex)), pids.get(a).z == -1), children_of(E, pids, ids.get(a).z) <= 2))
         return to_z3(v["result"], "bool") == ok
 
     # loop 0: children[k] lists, in row order, the ids of the rows whose parent id is k
@@ -512,6 +557,16 @@ def register_checker(R):
                     types={"children": "intlist"}),
             1: dict(invariant=[("no-overfull-node-so-far", inv1)]),
         },
+    )
+    R.add(
+        f"{CHK}:is_bifurcate",
+        prop="C18",
+        variants={fixed_name(m, f"exclude_root={ex}"): setup(ex, size=m) for m in FIXED_ROWS for ex in (True, False)},
+        requires=[("ids-distinct", pre_distinct), ("ids-are-not-the-marker", pre_marker), ("parents-exist", pre_parents)],
+        returns="bool",
+        options=dict(allow_symbolic_unroll=True),
+        ensures=[("true-iff-no-node-has-more-than-two-children", post)],
+        notes=FIXED_NOTE,
     )
 
 
@@ -607,10 +662,13 @@ def register(R):  # noqa: F811
 # ===========================================================================
 # checker.py: is_sorted
 def register_is_sorted(R):
-    def setup(S):
+    def setup(S, size=None):
         # ANY table of (id, parent id) pairs: forests, tables with cycles, dangling parents, ids that are not positions
-        n = S.int("n")
-        S.assume(n.z >= 0)
+        if size is None:
+            n = S.int("n")
+            S.assume(n.z >= 0)
+        else:
+            n = size  # the fixed-size registration: exactly `size` rows, contents arbitrary
         ids, pids = S.arr("int", n=n, name="ids"), S.arr("int", n=n, name="pids")
         ids.frozen = pids.frozen = True
         return dict(topology=(ids, pids))
@@ -618,9 +676,7 @@ def register_is_sorted(R):
     def post(E, v, o):
         # the property's clause "parents precede children": every row that has a parent carries a larger id than that parent
         ids, pids = o["topology"]
-        n = ids.nz()
-        x = z3.Int(fresh_name("x"))
-        every = z3.ForAll([x], z3.Implies(z3.And(x >= 0, x < n), z3.Or(z3.Select(pids.arr, x) == -1, z3.Select(pids.arr, x) < z3.Select(ids.arr, x))))
+        every = all_rows(rows_of(ids), lambda x: z3.Or(z3.Select(pids.arr, x) == -1, z3.Select(pids.arr, x) < z3.Select(ids.arr, x)))
         return to_z3(v["result"], "bool") == every
 
     def is_bool(E, v, o):
@@ -632,6 +688,11 @@ def register_is_sorted(R):
                    ("answers-with-a-bool", is_bool)],
           notes="any table: symbolic number of rows (0 included), arbitrary ids and parent ids (forests, cycles, self loops, dangling parents); "
                 "both input columns frozen; no loop, so the answer is given on every table (the former walk from node 0 did not terminate on a cycle)")
+    R.add(f"{CHK}:is_sorted", prop="C18", variants={fixed_name(m): (lambda S, m=m: setup(S, size=m)) for m in FIXED_ROWS}, returns="bool",
+          options=dict(allow_symbolic_unroll=True),
+          ensures=[("true-iff-every-row-with-a-parent-has-a-larger-id-than-its-parent-on-ANY-table", post),
+                   ("answers-with-a-bool", is_bool)],
+          notes=FIXED_NOTE)
 
 
 _reg_4 = register
